@@ -20,6 +20,7 @@
   pairwise distinct keys).  Reference: association list with insert-if-absent (`specInsert`).
 -/
 import Babylon.Swiss.SeqLemmasRun
+import Babylon.Swiss.Pinned
 
 namespace Babylon.Properties.C18
 open Babylon.Swiss Babylon.Gen.Swiss Babylon.Core
@@ -32,6 +33,12 @@ theorem gen_constants :
 /-- Generated obligation: `total_size` starts its sum from the head table's *element count*
 (not its bucket count, which is 16 for the element-less placeholder head). -/
 theorem gen_total_size_seed : totalSizeSeed = "size" := by decide
+
+/-- Generated obligations: the source text of every fixed-table function the model follows is the text
+the model was written against (`Swiss/Pinned.lean`). -/
+theorem gen_src_table : src_find = Pinned.find ∧ src_do_emplace = Pinned.do_emplace ∧ src_table_clear = Pinned.table_clear ∧ src_table_rehash = Pinned.table_rehash ∧ src_table_reserve = Pinned.table_reserve ∧ src_construct_with_bucket = Pinned.construct_with_bucket ∧ src_table_begin = Pinned.table_begin ∧ src_find_first_non_empty = Pinned.find_first_non_empty ∧ src_table_swap = Pinned.table_swap ∧ src_table_copy_ctor = Pinned.table_copy_ctor ∧ src_table_iter_incr = Pinned.table_iter_incr := ⟨rfl, rfl, rfl, rfl, rfl, rfl, rfl, rfl, rfl, rfl, rfl⟩
+/-- … and of every set-level function (growth chain, size, iteration, clear / reserve / rehash / copy). -/
+theorem gen_src_set : src_set_emplace = Pinned.set_emplace ∧ src_set_find = Pinned.set_find ∧ src_set_begin = Pinned.set_begin ∧ src_set_size = Pinned.set_size ∧ src_set_total_size = Pinned.set_total_size ∧ src_set_clear = Pinned.set_clear ∧ src_set_rehash = Pinned.set_rehash ∧ src_set_reserve = Pinned.set_reserve ∧ src_set_swap = Pinned.set_swap ∧ src_set_copy_ctor = Pinned.set_copy_ctor ∧ src_set_iter_incr = Pinned.set_iter_incr := ⟨rfl, rfl, rfl, rfl, rfl, rfl, rfl, rfl, rfl, rfl, rfl⟩
 
 /-! ### 1. the invariant holds initially and is preserved by every operation -/
 
